@@ -386,10 +386,15 @@ def exh_seq(ctx):
     X = TOP + " as Some.0"
     for p in checked(d, "sequence-next", b, ctx.walk(b, start_bb=outer, max_visits=1).paths, only=lambda p: p.end in ("return",) or p.end.startswith("loop")):
         gs, r = summarize(p)
-        gs = [strip_ver(g) for g in gs]
-        r = strip_ver(r)
+
+        def canon(x):
+            # `while let Some(top) = self.iterators.last_mut()`: the stack is empty exactly when it has no top
+            return x.replace("last_mut(a1.iterators) as Some.0", "Option::unwrap(last_mut(a1.iterators))")
+        gs = [canon(strip_ver(g)) for g in gs]
+        gs = ["eq(0, len(a1.iterators))" if g == "variant(last_mut(a1.iterators))=None" else "!eq(0, len(a1.iterators))" if g == "variant(last_mut(a1.iterators))=Some" else g for g in gs]
+        r = canon(strip_ver(r))
         loc = b.loc(p.blocks[-1])
-        cs = _calls(p)
+        cs = [(c[0], [canon(a) for a in c[1]]) for c in _calls(p)]
         if "eq(0, len(a1.iterators))" in gs:
             good = r == "Option::None"
             _rec(d, "none-when-empty", good, "with an empty stack next() must answer None", loc)
@@ -548,7 +553,7 @@ def contains_capturing(ctx):
     return _emit(d)
 
 
-@rule("CLEAR-BEYOND", ["C03", "C19", "C04", "C15", "C05"], floor=5)
+@rule("CLEAR-BEYOND", ["C03", "C19", "C04", "C15", "C05", "C01"], floor=5)
 def clear_beyond(ctx):
     """clear_captured_groups_beyond(pos): every group (and every back-reference slot) whose start is at or after
     pos gets end := start; both arrays are treated alike, on every call (no exit before both arrays were walked:
@@ -619,7 +624,15 @@ def clear_beyond(ctx):
     for g in pairs:
         if g not in seen:
             d[g + "|missing"] = [False, "clear_captured_groups_beyond no longer treats %s" % g, b.loc()]
-    return _emit(d)
+    out = _emit(d)
+    for o in out:
+        # what a later \N compares against is what this function left in the back-reference arrays: the match
+        # relation itself (C01) rests on those slots being emptied
+        if o.key.startswith("start_backref|") or o.key.startswith("every-call"):
+            o.props = ["C03", "C19", "C04", "C15", "C05", "C01"]
+        else:
+            o.props = ["C03", "C19", "C04", "C15", "C05"]
+    return out
 
 
 @rule("CAPTURE-WRITE", ["C03", "C19"], floor=5)
@@ -876,7 +889,7 @@ def _greedy_stack_canon(s):
     return s.replace("a1.iterations", "a1.iterators")
 
 
-@rule("REPEAT-ITER", ["C06", "C01", "C02", "C20", "C16", "C12"], floor=8)
+@rule("REPEAT-ITER", ["C06", "C01", "C02", "C20", "C16", "C12", "C19"], floor=8)
 def repeat_iter(ctx):
     """Repeat::matches_iter: the priming loop and the iterator stack are bounded by min(max, remaining+1) (the
     bound that makes the greedy repeat finite whatever its body matches); a greedy repeat is driven by
@@ -980,6 +993,10 @@ def repeat_iter(ctx):
     for i_ in out:
         if i_.key == "greedy-bound-proportional-to-input":
             i_.props = ["C06"]
+        elif i_.key in ("priming-stops-only-at-bound-or-failure", "greedy-bound-at-least-min", "greedy|extension-stops-only-at-bound-or-failure"):
+            # a counted back-reference to an unset or empty group (`\1{2}`) matches by min iterations that consume
+            # nothing: reaching the minimum whatever the iterations consume is part of "matches the empty string"
+            i_.props = ["C06", "C01", "C02", "C20", "C16", "C12", "C19"]
     return out
 
 
@@ -1176,6 +1193,37 @@ def recursion_scc(ctx):
     # (an audited component that no longer exists is not reported: removing a recursion cannot harm termination or the
     # stack; a component that changed its members shows up above as a new one)
     # receiver check for the two unconditional self-recursions
+    ILB = ("CharacterClassBuilder::CodePointInversionListBuilder{", "CharacterClassBuilder::from_str(", "CharacterClassBuilder::union(", "CharacterClassBuilder::complement(", "CharacterClassBuilder::difference(", "conv<", "try(ReCompiler::parse_character_class", "as CharacterClass.0")
+
+    def returners():
+        """Short names of the crate's functions that hand out a CharacterClassBuilder (or a Result of one) which on
+        every path is the inversion-list representation - least fixpoint, a function that returns what another such
+        function returned included."""
+        cands = {}
+        for x in ctx.f.bodies:
+            if x.kind == "Closure" or "CharacterClassBuilder" not in strip_lt(x.locals[0]["ty"]) or x.path.startswith("character_class::CharacterClassBuilder::"):
+                continue
+            rets = []
+            for w in ctx.walk(x).paths:
+                r = strip_ver(render(w.ret))
+                if r.startswith("propagate(") or r.startswith("Result::Err{"):
+                    continue
+                m_ = re.match(r"^Result::Ok\{0: (.*)\}$", r)
+                rets.append(m_.group(1) if m_ else r)
+            cands[x.path] = rets
+        good = set()
+        changed = True
+        while changed:
+            changed = False
+            for pth, rets in cands.items():
+                nm = pth.split("::")[-1]
+                if nm in good or not rets:
+                    continue
+                if all(any(k in r for k in ILB) or any(re.match(r"^(try\()?(\w+::)*%s\(" % re.escape(g), r) for g in good) for r in rets):
+                    good.add(nm)
+                    changed = True
+        return good
+    ret_ilb = ctx.cached(("ilb-returners",), returners)
     for m in ("complement", "build"):
         P = "character_class::CharacterClassBuilder::" + m
         n_ok = n_all = 0
@@ -1186,7 +1234,7 @@ def recursion_scc(ctx):
             se = ctx.senv(caller if caller.parent is None else caller.parent)
             v = se.operand(caller.blocks[bb]["term"]["args"][0]) if caller.parent is None else None
             s = show(v) if v else ""
-            if "CharacterClassBuilder::CodePointInversionListBuilder{" in s or "CharacterClassBuilder::from_str(" in s or "CharacterClassBuilder::union(" in s or "CharacterClassBuilder::complement(" in s or "CharacterClassBuilder::difference(" in s or "conv<" in s or "try(ReCompiler::parse_character_class" in s or "as CharacterClass.0" in s or "uninit" in s or "v" == s[:1]:
+            if "CharacterClassBuilder::CodePointInversionListBuilder{" in s or "CharacterClassBuilder::from_str(" in s or "CharacterClassBuilder::union(" in s or "CharacterClassBuilder::complement(" in s or "CharacterClassBuilder::difference(" in s or "conv<" in s or "try(ReCompiler::parse_character_class" in s or "as CharacterClass.0" in s or "uninit" in s or "v" == s[:1] or any(re.match(r"^(try\()?(\w+::)*%s\(" % re.escape(g), s) for g in ret_ilb):
                 n_ok += 1
             else:
                 out.append(bad("receiver|%s|%s" % (m, caller.path), "%s() is called on %s, which may be the Char representation: unconditional self-recursion (stack overflow)" % (m, s[:80]), caller.loc(bb)))
